@@ -10,6 +10,7 @@ import (
 	"github.com/olric-data/olric/internal/verif/clustermc"
 	"github.com/olric-data/olric/internal/verif/core"
 	"github.com/olric-data/olric/internal/verif/schedmc"
+	"github.com/olric-data/olric/internal/verif/simcluster"
 	"github.com/olric-data/olric/internal/verif/simnet"
 )
 
@@ -187,6 +188,53 @@ func init() {
 			fmt.Println("  net:", l)
 		}
 		fmt.Printf("%s\n hist: %s\n verdict: %q %s\n", p.Name, h, k, w)
+		c.Cov["explanation"] = "debug"
+	}})
+}
+
+// dbgchain: search member-name assignments and partition counts for a join sequence 1 -> 2 -> 3
+// members (no balancer pass in between) after which some partition lists three owners.
+func init() {
+	core.Register(&core.Check{ID: "dbgchain", Level: "other", Run: func(c *core.Ctx) {
+		for _, parts := range []uint64{3, 7} {
+			for a := 0; a < 9; a++ {
+				for b := 0; b < 9; b++ {
+					for d := 0; d < 9; d++ {
+						if a == b || a == d || b == d {
+							continue
+						}
+						cl := simcluster.New(simcluster.Opts{N: 1, Replicas: 1, WriteQ: 1, ReadQ: 1, Partitions: parts, TableSize: 1 << 16, PortOf: []int{a, b, d}})
+						dm, _ := cl.Live()[0].Emb.NewDMap("d")
+						kv := simcluster.WrapDMap("", dm)
+						for p := uint64(0); p < parts; p++ {
+							p := p
+							kv.Put(cl.FindKey("bg", func(k string) bool { return cl.PartID("d", k) == p }), []byte("v"), simcluster.PutOpt{})
+						}
+						for j := 1; j <= 2; j++ {
+							cl.StartMember(j)
+							cl.DeliverAll()
+							cl.Push()
+							if j == 1 {
+								for p := uint64(0); p < parts; p++ {
+									p := p
+									kv.Put(cl.FindKey("mid", func(k string) bool { return cl.PartID("d", k) == p }), []byte("v"), simcluster.PutOpt{})
+								}
+							}
+						}
+						t := cl.Live()[0].DB.VerifRT().VerifTable()
+						n := 0
+						for p := uint64(0); p < parts; p++ {
+							if len(t[p].Owners) >= 3 {
+								n++
+							}
+						}
+						if n > 0 {
+							fmt.Printf("P=%d ports=%d,%d,%d chains=%d\n", parts, a, b, d, n)
+						}
+					}
+				}
+			}
+		}
 		c.Cov["explanation"] = "debug"
 	}})
 }
